@@ -9,7 +9,7 @@ open GocoinV.Persist
 
 local macro "rf[" n:term ", " id:term "]" : term => `(List.find? (fun (x : BRec) => x.id == $id) (Node.recs $n))
 
-variable {P : BlockId → List Coin → Prop} {base : Disk} {X : BlockId → Prop} {T : List BlockId} {Q Qn : List Block} {s : St}
+variable {P : Snap → Prop} {base : Disk} {X : BlockId → Prop} {T : List BlockId} {Q Qn : List Block} {s : St}
 
 theorem InvQ.ghostMono (h : InvQ ⟨P, base, X, T, Q, Qn⟩ s) (T' : List BlockId) (hs : ∀ id ∈ T', id ∈ T) :
     InvQ ⟨P, base, X, T', Q, Qn⟩ s :=
@@ -277,30 +277,30 @@ theorem tip_on_disk (h : InvQ ⟨P, base, X, T, [], Qn⟩ s) : s.n.tip = 0 ∨ s
 
 /-! ### Chain.Idle, Chain.Close -/
 
-theorem idle_inv (h : InvQ ⟨P, base, X, T, Q, Q⟩ s) (hP : P s.n.tip s.n.utxo) :
+theorem idle_inv (h : InvQ ⟨P, base, X, T, Q, Q⟩ s) (hP : P ⟨s.n.tip, s.n.lastHeight, s.n.utxo⟩) :
     ∃ q, InvQ ⟨P, base, X, T, q, q⟩ (idle s) := by
   unfold idle
   split
   · exact ⟨Q, h⟩
   · have h1 := writeAll_inv h
-    obtain ⟨f1, f2, _⟩ := writeAll_frame s
+    obtain ⟨f1, f2, _, _, _, f6, _⟩ := writeAll_frame s
     simp only []
     split
-    · exact ⟨[], startSave_inv h1 false (by rw [f1, f2]; exact hP) (tip_on_disk h1)⟩
+    · exact ⟨[], startSave_inv h1 false (by rw [f1, f2, f6]; exact hP) (tip_on_disk h1)⟩
     · exact ⟨[], h1⟩
 
-theorem close_inv (h : InvQ ⟨P, base, X, T, Q, Q⟩ s) (hP : P s.n.tip s.n.utxo) :
+theorem close_inv (h : InvQ ⟨P, base, X, T, Q, Q⟩ s) (hP : P ⟨s.n.tip, s.n.lastHeight, s.n.utxo⟩) :
     ∃ q, InvQ ⟨P, base, X, T, q, q⟩ (close s) := by
   unfold close
   split
   · exact ⟨Q, h⟩
   · have h1 := writeAll_inv h
-    obtain ⟨f1, f2, _⟩ := writeAll_frame s
+    obtain ⟨f1, f2, _, _, _, f6, _⟩ := writeAll_frame s
     simp only []
     split
     · split
       · exact ⟨[], hurrySave_inv h1⟩
-      · exact ⟨[], startSave_inv h1 true (by rw [f1, f2]; exact hP) (tip_on_disk h1)⟩
+      · exact ⟨[], startSave_inv h1 true (by rw [f1, f2, f6]; exact hP) (tip_on_disk h1)⟩
     · exact ⟨[], h1⟩
 
 end GocoinV.Proofs.C07
